@@ -552,9 +552,9 @@ Section DocAgree.
     rewrite (process_defs_agree (defs_of S d) _ _ _ (defs_ok S d Henv Hmc) (defs_SelsIn S d)). reflexivity.
   Qed.
 
-  Theorem generate_real_agree : schema_loadable S = true ->
-    generate_real S (doc_valid S d) d = generate_cli no_quirks S (doc_valid S d) d.
+  Theorem generate_real_agree D : schema_loadable S = true ->
+    generate_real D S (doc_valid S d) d = generate_cli no_quirks S (doc_valid S d) d.
   Proof.
-    intros HL. unfold generate_real, generate_cli. rewrite (load_schema_roundtrip S HL). apply generate_agree.
+    intros HL. rewrite generate_real_unfold. unfold generate_cli. rewrite (load_schema_roundtrip S HL). apply generate_agree.
   Qed.
 End DocAgree.
